@@ -40,6 +40,8 @@ func exec(op string) vlib.Res {
 	case "carrier":
 		ops := strings.Split(f[2], ",")
 		return vlib.Res{Impl: strings.Join(server.VerifC10CarrierScript(ops), ","), Oracle: "-", Tags: "nt"}
+	case "fw":
+		return execForwarder(f)
 	case "fo":
 		return execFailover(f)
 	case "doq":
